@@ -28,3 +28,32 @@ func ZZ_C11_bls_PublicKey_two_threads_G1() { zzPublicKeyTwoThreads[G1]() }
 
 //zz: prop=C11 tier=quick backend=bv use=g1smuf timeout=120
 func ZZ_C11_bls_PublicKey_two_threads_G2() { zzPublicKeyTwoThreads[G2]() }
+
+// C02: "verification returns false for any string obtained from a valid signature by truncating or
+// appending bytes": whatever the pairing equation says (it is a free verdict here, set "blsfree";
+// point decoding is a free verdict too, set "g12free"), Verify accepts only signature strings of
+// exactly the size their header byte announces (48/96 bytes for signatures in G1, 96/192 in G2).
+// Every length from one below the compressed size to one above the uncompressed size.
+
+func zzVerifySigLength[K KeyGroup](sizeC, sizeU int) {
+	if !zzSymbolic() {
+		zzModelOnly() // decoding and pairing are free verdicts
+	}
+	n := zzPick("siglen", sizeC-1, sizeC, sizeC+1, sizeU-1, sizeU, sizeU+1)
+	sig := make([]byte, n)
+	zzFill("sig", sig)
+	var pub PublicKey[K]
+	if Verify(&pub, []byte("m"), sig) {
+		want := sizeU
+		if sig[0]>>7 == 1 {
+			want = sizeC
+		}
+		zzAssert(n == want, "an accepted signature has exactly the size its header byte announces (no appended bytes)")
+	}
+}
+
+//zz: prop=C02 tier=quick backend=bv use=g12free,blsfree timeout=300
+func ZZ_C02_bls_Verify_signature_length_keyG1() { zzVerifySigLength[G1](96, 192) }
+
+//zz: prop=C02 tier=quick backend=bv use=g12free,blsfree timeout=300
+func ZZ_C02_bls_Verify_signature_length_keyG2() { zzVerifySigLength[G2](48, 96) }
